@@ -215,11 +215,13 @@ pub struct PrepSpec {
     pub bit_start: usize,
     pub bit_count: usize,
     pub threads: usize,
+    /// true: through the `FheUintPrepared::prepare_custom{,_multi_thread}` wrappers instead of the module-level trait
+    pub via_struct: bool,
 }
 
 impl PrepSpec {
     pub fn to_json(&self) -> Value {
-        json!({"n": self.n, "rank": self.rank, "word_bits": self.word_bits, "bit_start": self.bit_start, "bit_count": self.bit_count, "threads": self.threads})
+        json!({"n": self.n, "rank": self.rank, "word_bits": self.word_bits, "bit_start": self.bit_start, "bit_count": self.bit_count, "threads": self.threads, "via_struct": self.via_struct})
     }
     pub fn from_json(v: &Value) -> PrepSpec {
         let u = |k: &str| v[k].as_u64().unwrap();
@@ -230,6 +232,7 @@ impl PrepSpec {
             bit_start: u("bit_start") as usize,
             bit_count: u("bit_count") as usize,
             threads: u("threads") as usize,
+            via_struct: v["via_struct"].as_bool().unwrap_or(false),
         }
     }
 }
@@ -713,15 +716,21 @@ macro_rules! backend_impl {
                             let arange = arena.range();
                             let mut body = || {
                                 let scratch: &mut Scratch<BE> = Scratch::<BE>::from_bytes(arena.window());
-                                c.module.fhe_uint_prepare_custom_multi_thread(
-                                    spec.threads,
-                                    &mut res,
-                                    $word,
-                                    spec.bit_start,
-                                    spec.bit_count,
-                                    &b.key,
-                                    scratch,
-                                );
+                                // one thread = the single-threaded entry point (the reference of the EQ oracle)
+                                match (spec.via_struct, spec.threads) {
+                                    (false, 1) => c.module.fhe_uint_prepare_custom(&mut res, $word, spec.bit_start, spec.bit_count, &b.key, scratch),
+                                    (false, t) => c.module.fhe_uint_prepare_custom_multi_thread(
+                                        t,
+                                        &mut res,
+                                        $word,
+                                        spec.bit_start,
+                                        spec.bit_count,
+                                        &b.key,
+                                        scratch,
+                                    ),
+                                    (true, 1) => res.prepare_custom(&c.module, $word, spec.bit_start, spec.bit_count, &b.key, scratch),
+                                    (true, t) => res.prepare_custom_multi_thread(t, &c.module, $word, spec.bit_start, spec.bit_count, &b.key, scratch),
+                                }
                             };
                             let (r, rep) = match cfg {
                                 Some(mut cfg) => {
